@@ -1085,7 +1085,7 @@ Section FirstExpansion.
     set (es := e_order E [] (filter (usable E []) (e_offers E))) in *.
     destruct (expand E (0, 0, 0) [] es [] 1) as [[[np|] q'] cnt'] eqn:Ex.
     2:{ pose proof (expand_long E (0, 0, 0) [] es [] 1 (Forall_nil _)) as L. rewrite Ex in L.
-        apply (search_long E order_perm f q' cnt' [o] L) in H. cbn in H. lia. }
+        apply (search_long E f q' cnt' [o] L) in H. cbn in H. lia. }
     inversion H; subst np. clear H.
     destruct (expand_first E _ _ _ _ _ _ _ _ Ex) as (l1 & o0 & l2 & Hes & Hnp & Hl1).
     cbn in Hnp. inversion Hnp; subst o0. clear Hnp.
@@ -1102,10 +1102,10 @@ Section FirstExpansion.
 End FirstExpansion.
 
 Lemma edge_lt_major sub (x y : nat * offer) : fst x < fst y -> edge_lt sub x y = true.
-Proof. destruct x as [d1 o1], y as [d2 o2]. cbn. intros H. apply Nat.ltb_lt in H. rewrite H. reflexivity. Qed.
+Proof. destruct x as [d1 o1], y as [d2 o2]. cbn [fst]. intros H. unfold edge_lt. apply Nat.ltb_lt in H. rewrite H. reflexivity. Qed.
 Lemma edge_lt_minor sub (x y : nat * offer) : edge_lt sub x y = true -> fst x <= fst y.
 Proof.
-  destruct x as [d1 o1], y as [d2 o2]. cbn. intros H. apply orb_true_iff in H. destruct H as [H|H].
+  destruct x as [d1 o1], y as [d2 o2]. cbn [fst]. unfold edge_lt. intros H. apply orb_true_iff in H. destruct H as [H|H].
   - apply Nat.ltb_lt in H. lia.
   - apply andb_true_iff in H. destruct H as [H _]. apply andb_true_iff in H. destruct H as [H _]. apply Nat.eqb_eq in H. lia.
 Qed.
